@@ -36,7 +36,12 @@ def make_lines(rng, n):
                 vals[rng.randrange(2, 4)] = 0.0
             lines.append("prect %d %s" % (i, " ".join(str(FB(v)) for v in vals)))
         elif k == 1:
-            lines.append("ptransform %d %s %s" % (i, scene.xf_tokens(scene.rand_xf(rng, general=0.6)),
+            xf = scene.rand_xf(rng, general=0.6)
+            if rng.random() < 0.1:
+                # non-invertible (rank 0 / rank 1) and nearly singular transforms still map every point
+                xf = rng.choice([(0.0,) * 6, (1.0, 0.0, 0.0, 0.0, 3.0, 3.0), (0.0, 0.0, 0.0, 2.0, 1.0, 0.0), (1.0, 2.0, 2.0, 4.0, 1.0, 1.0),
+                                 (0.5, 0.25, 1.0, 0.5, 2.0, 2.0), (1e-23, 0.0, 0.0, 1e-23, 5.0, 5.0), (1e20, 0.0, 0.0, 1e-20, 0.0, 0.0)])
+            lines.append("ptransform %d %s %s" % (i, scene.xf_tokens(xf),
                                                   scene.path_tokens(pc.mixed_ops(rng), rng.randrange(2))))
         else:
             x, y = rng.randrange(-40, 160) / 4.0, rng.randrange(-40, 160) / 4.0
